@@ -6,7 +6,7 @@ VARIABLE l
 vars == <<l>>
 Verdict(ev) ==
     CASE ev.op = "lift" -> VBool(Len(ev.r) = ev.n /\ LiftOK(ev.f, ev.t, ev.q, ev.a, ev.r, ev.s))
-      [] ev.op = "fold" -> VBool(SameBitsOrBothNaN(ev.t, ev.r[1], ev.s[1]))
+      [] ev.op = "fold" -> VBool(SameBitsOrBothNaN(ev.t, ev.r[1], ev.s[1]) \/ (ev.f \in {"compMin", "compMax"} /\ BothZero(ev.t, ev.r[1], ev.s[1])))
       [] OTHER -> VBad
 Init == l = 1 /\ RegInit
 Next == /\ l <= NTrace
